@@ -7,6 +7,7 @@ import (
 	"go/token"
 	"go/types"
 	"golang.org/x/tools/go/ssa"
+	"os"
 	"sort"
 	"strings"
 
@@ -148,9 +149,7 @@ func checkC14(c *core.Ctx, l *core.Ledger) {
 		info := c.DeclPkg(fobj).TypesInfo
 		src := nodeStr(c.Fset, fd.Body)
 		var why []string
-		if !(strings.Contains(src, ".Size() != ") || strings.Contains(src, "len(left.Fields) != len(right.Fields)")) {
-			why = append(why, "no size/length test")
-		}
+		_ = src
 		positional := false
 		ast.Inspect(fd.Body, func(n ast.Node) bool {
 			rs, ok := n.(*ast.RangeStmt)
@@ -174,7 +173,35 @@ func checkC14(c *core.Ctx, l *core.Ledger) {
 		if (wc.kind == "positional") != positional {
 			why = append(why, fmt.Sprintf("positional comparison=%v, expected %s", positional, wc.kind))
 		}
-		l.Check(len(why) == 0, "EQ-KIND", "wire."+wc.fn, c.Rel(fd.Pos()), wc.kind+" comparison after a size test", strings.Join(why, "; "))
+		// the size test guards every answer other than false
+		if sf := c.SSAFunc(fobj); sf != nil && len(sf.Params) == 2 {
+			sized := func(v ssa.Value, p string) bool {
+				if call, ok := v.(*ssa.Call); ok && call.Common().IsInvoke() && call.Common().Method.Name() == "Size" {
+					return core.Sym(call.Common().Value) == p
+				}
+				s := core.Sym(v)
+				return strings.HasPrefix(s, "len("+p+".")
+			}
+			edges := core.GuardEdges(sf, func(cm core.Cmp) bool {
+				if os.Getenv("VDEBUG") != "" {
+					fmt.Fprintln(os.Stderr, "EQSIZE", wc.fn, cm.Op, core.Sym(cm.X), core.Sym(cm.Y))
+				}
+				return cm.Op == token.EQL && ((sized(cm.X, "$0") && sized(cm.Y, "$1")) || (sized(cm.X, "$1") && sized(cm.Y, "$0")))
+			})
+			core.Instrs(sf, func(in ssa.Instruction) {
+				r, ok := in.(*ssa.Return)
+				if !ok || len(r.Results) != 1 {
+					return
+				}
+				if k, isK := r.Results[0].(*ssa.Const); isK && k.Value != nil && k.Value.String() == "false" {
+					return
+				}
+				if len(edges) == 0 || !core.AllPathsThroughEdges(sf, r.Block(), edges) {
+					why = append(why, "the answer returned at "+c.Rel(r.Pos())+" can be other than false without the two sizes having been found equal")
+				}
+			})
+		}
+		l.Check(len(why) == 0, "EQ-KIND", "wire."+wc.fn, c.Rel(fd.Pos()), wc.kind+" comparison after a size test", strings.Join(uniq(why), "; "))
 	}
 	l.Floor("EQ-KIND", 8)
 	checkEqPrim(c, l)
